@@ -192,6 +192,10 @@ package bgp
 //@   modifies p.*
 //@   ensures err != nil ==> freshMsgErr(err)
 //@ func (*PathAttributeCommunities).DecodeFromBytes
+//@   tag C05 C06
+// from C06 / RFC 7606 7.8, 7.10, 7.14 (RFC 8092 5): the length is a NON-ZERO multiple of the element size - an empty
+// attribute of this kind is malformed
+//@   ensures err == nil ==> p.Length != 0
 //@   modifies p.*
 //@   loop 0 decreases len(value)
 //@   loop 0 invariant 4*(len(p.Value) - old(len(p.Value))) + len(value) == int(p.Length) && len(value) % 4 == 0
@@ -199,6 +203,10 @@ package bgp
 // from C04: decoding into an empty attribute leaves Length consistent with the content (what Serialize/Len rely on)
 //@   ensures err == nil && old(len(p.Value)) == 0 ==> lenFits(p.Flags, p.Length, 4*len(p.Value))
 //@ func (*PathAttributeClusterList).DecodeFromBytes
+//@   tag C05 C06
+// from C06 / RFC 7606 7.8, 7.10, 7.14 (RFC 8092 5): the length is a NON-ZERO multiple of the element size - an empty
+// attribute of this kind is malformed
+//@   ensures err == nil ==> p.Length != 0
 //@   modifies p.*
 //@   loop 0 decreases len(value)
 //@   ensures err != nil ==> freshMsgErr(err)
@@ -206,6 +214,10 @@ package bgp
 //@   modifies nothing
 //@   ensures result != nil && fresh(result)
 //@ func (*PathAttributeLargeCommunities).DecodeFromBytes
+//@   tag C05 C06
+// from C06 / RFC 7606 7.8, 7.10, 7.14 (RFC 8092 5): the length is a NON-ZERO multiple of the element size - an empty
+// attribute of this kind is malformed
+//@   ensures err == nil ==> p.Length != 0
 //@   modifies p.*
 //@   loop 0 decreases len(value)
 //@   ensures err != nil ==> freshMsgErr(err)
@@ -391,6 +403,10 @@ package bgp
 //@   assume-callee-frames
 //@   ensures result1 != nil ==> freshMsgErr(result1)
 //@ func (*PathAttributeExtendedCommunities).DecodeFromBytes
+//@   tag C05 C06
+// from C06 / RFC 7606 7.8, 7.10, 7.14 (RFC 8092 5): the length is a NON-ZERO multiple of the element size - an empty
+// attribute of this kind is malformed
+//@   ensures err == nil ==> p.Length != 0
 //@   modifies p.*
 //@   loop 0 decreases len(value)
 //@   ensures err != nil ==> freshMsgErr(err)
